@@ -54,6 +54,9 @@ pub mod sym;
 #[path = "../../common/stubs.rs"]
 pub mod stubs;
 
+#[cfg(all(test, replay, not(kani)))]
+mod selftest;
+
 #[cfg(all(any(kani, replay), feature = "c01"))]
 mod c01;
 #[cfg(all(any(kani, replay), feature = "c02"))]
